@@ -70,6 +70,8 @@ def main(argv=None):
     # ---- verdict
     undecided = []
     failures = []
+    from vx import expected as _exp
+    expected_fns = _exp.load()
     soft = []          # functions outside the verifier's reach (rewritten / unsupported constructs): decided only by the bounded stand-in
     n_obl = 0; n_dis = 0
     fn_rows = []
@@ -98,10 +100,13 @@ def main(argv=None):
                 n_obl += 1
                 if st.get('success'): n_dis += 1
                 fn_rows.append(dict(unit=name, function=short, mode=st.get('mode'), solver_ms=st.get('time_ms'), rlimit=st.get('rlimit'), discharged=bool(st.get('success'))))
+        unknown = [k_ for k_ in g.uncontracted if k_ not in expected_fns.get(name, [])]
         for f in r.failures:
             if pid in f.props:
                 md = r.modes.get(f.owner)
-                if md in ('contract_only', 'external'): soft.append((name, f.owner, 'contract-only verification of the rewritten function failed: ' + f.ident()))
+                if unknown:
+                    soft.append((name, f.owner, 'the unit contains functions unknown to the overlay (%s); failed: %s' % (', '.join(unknown[:4]), f.ident()[:120])))
+                elif md in ('contract_only', 'external'): soft.append((name, f.owner, 'contract-only verification of the rewritten function failed: ' + f.ident()))
                 else: failures.append((name, f))
         for k_, why in r.fallback.items():
             if pid in g.owner_props.get(k_, []) and r.modes.get(k_) == 'external':
@@ -118,6 +123,10 @@ def main(argv=None):
                             else: failures.append((name, f))
         for (fname, k_, props_) in g.missing:
             if pid in props_: soft.append((name, k_, 'contracted function no longer exists'))
+        if unknown:
+            moved = [(n_, f_) for (n_, f_) in failures if n_ == name]
+            failures = [(n_, f_) for (n_, f_) in failures if n_ != name]
+            soft += [(name, f_.owner, 'the unit contains functions unknown to the overlay (%s); failed: %s' % (', '.join(unknown[:4]), f_.ident()[:120])) for (_, f_) in moved]
         for (own, msg) in r.rlimit:
             if pid in g.owner_props.get(own, [pid]):
                 # the solver gave up on a function that verifies on the unchanged tree: undecided by the verifier; the bounded stand-in may still find a failing input
